@@ -64,10 +64,9 @@ What is theorem here:
     irrelevant), `assign_paths_agree` (one (s_node, lane) item, ANY previous contents of the two memories: same waveform read
     back, raw cells 0–2 equal, cells ≥ 3 keep the old — stale — content), `assign_reads_stimulus` (= `Wave.stimWave`, the
     stimulus of the waveform model), `s_to_c_gpu_lane` (what the launch does, no hypotheses), `s_to_c_paths_agree` (whole
-    array `c`, every block shape; hypotheses: every state element has (P)PI memory, disjoint (P)PI regions, values 0 or ≥ 1/2);
-    the first hypothesis cannot be dropped: `orphanTab` (a flip-flop without connected outputs has `c_locs = -1`; the NumPy
-    statements store through the −1 at `c[-1]`, `c[0]`, `c[1]`, the kernel skips the row — reproduced on the real code, where
-    it changes captured results: finding candidate, see harness note);
+    array `c`, every block shape; hypotheses: disjoint (P)PI regions, values 0 or ≥ 1/2); state elements without connected
+    outputs (`c_locs = -1`, `orphanTab`) are skipped by both paths — the CPU path stored through the −1 at `c[-1]`, `c[0]`,
+    `c[1]` until the repair "state elements without connected outputs are not assigned in s_to_c" (found by this model: D31);
   - `s_ppo_to_ppi`: `ppo_to_ppi_rows` (exactly which rows each path transfers, no hypotheses), `ppo_to_ppi_paths_agree` (equal
     when the rows with both slots are the state-element rows), `ppo_to_ppi_keeps_domain`; `inoutTab`: the hypothesis is needed;
   - propagation: `eval_thread_eq` (kernel thread = guarded CPU loop body, for EVERY evaluator function — both paths call the
@@ -830,15 +829,16 @@ theorem s_to_c_gpu_lane (tb : Tab) (den sims bx by_ : Nat) (hbx : 0 < bx) (hby :
       if k < sims then (List.range tb.sLen).foldl (fun col y => assignWork tb den s k y col) (c k) else c k :=
   gpuSToC_lane tb den sims bx by_ hbx hby s c k
 
-/-- **`s_to_c`, whole arrays.** Tables in which every state-element row has (P)PI memory (`stateRowsAllocatedB`: every flip-flop
-    / latch has an output pin entry) and the (P)PI regions are pairwise disjoint (`regionsDisjointB`), logic values `0` or `≥ 1/2`
+/-- **`s_to_c`, whole arrays.** Tables whose (P)PI regions are pairwise disjoint (`regionsDisjointB`), logic values `0` or `≥ 1/2`
     on every used row and lane (`flagsOKB`): the kernel launch (every block shape) and the three NumPy statements leave the
-    same array `c` — every cell of every lane. -/
+    same array `c` — every cell of every lane. State elements without (P)PI memory (no connected output, `c_locs = -1`) are
+    skipped by both paths (the CPU path since the repair "state elements without connected outputs are not assigned in s_to_c";
+    before it stored through the −1, see `orphanTab`). -/
 theorem s_to_c_paths_agree (tb : Tab) (den sims bx by_ : Nat) (hbx : 0 < bx) (hby : 0 < by_) (hden : 0 < den)
     (s : Nat → Nat → SRow) (c : Nat → Col) (hio : tb.nIo ≤ tb.sLen)
-    (hrows : stateRowsAllocatedB tb = true) (hdisj : regionsDisjointB tb = true) (hflags : flagsOKB tb den sims s = true) :
+    (hdisj : regionsDisjointB tb = true) (hflags : flagsOKB tb den sims s = true) :
     gpuSToC tb den sims bx by_ s c = cpuSToCAll tb sims s c :=
-  sToC_paths_agree tb den sims bx by_ hbx hby hden s c hio (stateRowsAllocatedB_sound hrows) (regionsDisjointB_sound hdisj)
+  sToC_paths_agree tb den sims bx by_ hbx hby hden s c hio (regionsDisjointB_sound hdisj)
     (flagsOKB_sound hflags)
 
 /-! non-vacuity: rows 0 (input), 1 (output), 2, 3 (flip-flops); three lanes; blocks of 2 × 3 threads -/
@@ -851,20 +851,21 @@ def pathS : Nat → Nat → SRow := fun x y =>
 def pathC : Nat → Col := fun x a => T.fin (100 * x + a)
 
 example : gpuSToC pathTab 4 3 2 3 pathS pathC = cpuSToCAll pathTab 3 pathS pathC :=
-  s_to_c_paths_agree pathTab 4 3 2 3 (by decide) (by decide) (by decide) pathS pathC (by decide) (by decide) (by decide) (by decide)
+  s_to_c_paths_agree pathTab 4 3 2 3 (by decide) (by decide) (by decide) pathS pathC (by decide) (by decide) (by decide)
 
 example : rdCells (gpuSToC pathTab 4 3 2 3 pathS pathC 1) 12 12 =
     [T.tmin, T.fin 3, T.tmax, T.fin 115, T.fin 5, T.tmax, T.tmax, T.fin 119, T.tmin, T.tmax, T.tmax, T.fin 123] := by decide +kernel
 
-/-- the hypothesis "every state element has (P)PI memory" cannot be dropped: for a flip-flop without connected outputs
-    `c_locs[ppi_offset + y] = -1`; the kernel skips the row, the NumPy statements do not test and store at `c[-1]`, `c[0]`, `c[1]` —
-    the last cell of the array and the memory of the constant-0 signal (reproduced on the real code: a falling stimulus on
-    such a row makes the constant rise at the transition time, on the CPU path only) -/
+/-- a flip-flop without connected outputs has `c_locs[ppi_offset + y] = -1`: both paths skip the row (before the repair the
+    NumPy statements stored at `c[-1]`, `c[0]`, `c[1]` — the last cell of the array and the memory of the constant-0 signal;
+    reproduced on the real code at that time: a falling stimulus on such a row made the constant rise, on the CPU path only) -/
 def orphanTab : Tab := { pathTab with ppiLoc := fun y => [12, -1, 16, -1].getD y (-1) }
 example : stateRowsAllocatedB orphanTab = false ∧
-    rdCells (cpuSToCAll orphanTab 3 pathS pathC 0) 0 2 = [T.fin 3, T.tmax] ∧ cpuSToCAll orphanTab 3 pathS pathC 0 39 = T.tmin ∧
+    rdCells (cpuSToCAll orphanTab 3 pathS pathC 0) 0 2 = [T.fin 0, T.fin 1] ∧ cpuSToCAll orphanTab 3 pathS pathC 0 39 = T.fin 39 ∧
     rdCells (gpuSToC orphanTab 4 3 2 3 pathS pathC 0) 0 2 = [T.fin 0, T.fin 1] ∧ gpuSToC orphanTab 4 3 2 3 pathS pathC 0 39 = T.fin 39 := by
   decide +kernel
+example : gpuSToC orphanTab 4 3 2 3 pathS pathC = cpuSToCAll orphanTab 3 pathS pathC :=
+  s_to_c_paths_agree orphanTab 4 3 2 3 (by decide) (by decide) (by decide) pathS pathC (by decide) (by decide) (by decide)
 
 /-! ### `s_ppo_to_ppi` -/
 
@@ -1073,12 +1074,12 @@ def gpuSimulate (tb : Tab) (den sims bx by_ : Nat) (ev : Ev) (ops : List AOp) (l
 theorem simulate_paths_agree (tb : Tab) (den sims bx by_ : Nat) (hbx : 0 < bx) (hby : 0 < by_) (hden : 0 < den)
     (ev : Ev) (ops : List AOp) (levels : List (Nat × Nat)) (time : T)
     (s : Nat → Nat → SRow) (c : Nat → Col) (ab : Nat → Int → Int) (res : Nat → Nat → Option Cap) (hio : tb.nIo ≤ tb.sLen)
-    (hrows : stateRowsAllocatedB tb = true) (hdisj : regionsDisjointB tb = true) (hflags : flagsOKB tb den sims s = true)
+    (hdisj : regionsDisjointB tb = true) (hflags : flagsOKB tb den sims s = true)
     (hrows' : stateRowsCapturedB tb = true) (hcap : capsPositiveB tb = true) :
     gpuSimulate tb den sims bx by_ ev ops levels time s c ab res = cpuSimulate tb sims ev ops levels time s c ab res := by
   unfold gpuSimulate cpuSimulate
   simp only
-  rw [s_to_c_paths_agree tb den sims bx by_ hbx hby hden s c hio hrows hdisj hflags,
+  rw [s_to_c_paths_agree tb den sims bx by_ hbx hby hden s c hio hdisj hflags,
     (c_prop_paths_agree ev ops levels sims bx by_ hbx hby _).1]
   congr 1
   funext x
@@ -1103,7 +1104,7 @@ def simC : Nat → Col := fun x a => if a < 8 then T.tmax else T.fin (100 * x + 
 example : gpuSimulate simTab 4 2 2 2 simEv simOps [(0, 1)] (T.fin 9) simS simC (fun _ _ => 0) (fun _ _ => none) =
     cpuSimulate simTab 2 simEv simOps [(0, 1)] (T.fin 9) simS simC (fun _ _ => 0) (fun _ _ => none) :=
   simulate_paths_agree simTab 4 2 2 2 (by decide) (by decide) (by decide) simEv simOps [(0, 1)] (T.fin 9) simS simC _ _
-    (by decide) (by decide) (by decide) (by decide) (by decide) (by decide)
+    (by decide) (by decide) (by decide) (by decide) (by decide)
 
 /-- … lane 0: the AND output rises at 7 and falls at 13 (captured value at 9: 1, one rise + one fall accumulated); behind the
     terminator the stale cells are still there -/
